@@ -185,6 +185,10 @@ def check_conversion(run, cx, cfg, trait, meth, N, fn, body):
             if len(fromraw) > 1:
                 bad = 're-owns the allocation twice'
                 break
+            # ... and the converse: Box::from_raw on memory the original box still owns frees it twice
+            if fromraw and not [1 for k, e in forgets if k < fromraw[0][0]]:
+                bad = 're-owns the allocation with Box::from_raw while the original box is still owned (it is dropped as well: double free) on the path [%s]' % describe_path(p)
+                break
             if isinstance(d, tuple) or d is None:
                 bad = 'path not decided by `len %% %d == 0`' % N
                 break
